@@ -27,6 +27,10 @@ fn pair_ops(rec: &mut Rec, a: &BigInt, b: &BigInt, class: &str, with_mixed: bool
     // by-value forms exercise the in-place buffers of either operand
     expect_i(rec, P, "IBig::add(val,val)", class, guard(|| ia.clone() + ib.clone()), &sum, || case("+"));
     expect_i(rec, P, "IBig::sub(val,val)", class, guard(|| ia.clone() - ib.clone()), &dif, || case("-"));
+    expect_i(rec, P, "IBig::sub(ref,val)", class, guard(|| &ia - ib.clone()), &dif, || case("-"));
+    expect_i(rec, P, "IBig::sub(val,ref)", class, guard(|| ia.clone() - &ib), &dif, || case("-"));
+    expect_i(rec, P, "IBig::add(ref,val)", class, guard(|| &ia + ib.clone()), &sum, || case("+"));
+    expect_i(rec, P, "IBig::add(val,ref)", class, guard(|| ia.clone() + &ib), &sum, || case("+"));
     if nonneg(a) && nonneg(b) {
         let (ua, ub) = (ref_to_u(a.magnitude()), ref_to_u(b.magnitude()));
         expect_u(rec, P, "UBig::add", class, guard(|| &ua + &ub), sum.magnitude(), || case("+"));
@@ -35,10 +39,15 @@ fn pair_ops(rec: &mut Rec, a: &BigInt, b: &BigInt, class: &str, with_mixed: bool
         if a >= b {
             expect_u(rec, P, "UBig::sub", class, guard(|| &ua - &ub), dif.magnitude(), || case("-"));
             expect_u(rec, P, "UBig::sub(val,val)", class, guard(|| ua.clone() - ub.clone()), dif.magnitude(), || case("-"));
+            expect_u(rec, P, "UBig::sub(ref,val)", class, guard(|| &ua - ub.clone()), dif.magnitude(), || case("-"));
+            expect_u(rec, P, "UBig::sub(val,ref)", class, guard(|| ua.clone() - &ub), dif.magnitude(), || case("-"));
         } else {
             rec.hit("ubig-underflow-panics");
             expect_panic(rec, P, "UBig::sub", "underflow", guard(|| &ua - &ub), || case("-"));
             expect_panic(rec, P, "UBig::sub(val,val)", "underflow", guard(|| ua.clone() - ub.clone()), || case("-"));
+            expect_panic(rec, P, "UBig::sub(ref,val)", "underflow", guard(|| &ua - ub.clone()), || case("-"));
+            expect_panic(rec, P, "UBig::sub(val,ref)", "underflow", guard(|| ua.clone() - &ub), || case("-"));
+            expect_panic(rec, P, "UBig::sub_assign", "underflow", guard(|| { let mut t = ua.clone(); t -= &ub; t }), || case("-="));
         }
     }
     if with_mixed && nonneg(a) {
